@@ -129,6 +129,14 @@ class GarbageCollector:
                 ) from e
             for m in manifests:
                 m_path = m.manifest_path
+                if not isinstance(m_path, str):
+                    # An entry whose manifest path is null / 0 / [] is not "an entry
+                    # without a manifest": the list is damaged, and skipping the entry
+                    # would make that manifest and its data files look like orphans.
+                    raise GarbageCollectionAborted(
+                        f"Aborting GC: cannot read reachable manifest list {m_list_path}: an entry "
+                        f"does not name its manifest as a string ({m_path!r}). Nothing was deleted."
+                    )
                 if m_path:
                     reachable_manifests.add(self._normalize_path(m_path))
 
